@@ -6,6 +6,7 @@ CONSTANTS
   MaxTape = 100000
   Chunks = {"c1", "c2", "c3"}
   AttrVals = {1}
+  RestartKinds = {}
   Handles = {}
   HandleFlags = {}
   MaxContent = 100
